@@ -12,7 +12,8 @@ def run(ctx):
     core_specs.durability(ctx)
     binp = ctx.build_harness(cc.HARNESS)
     q = ctx.quick()
-    trace, res, summ = cc.run_profile(ctx, binp, "crash", 6 if q else 40, 0 if q else 0)
-    cc.report(ctx, PID, res, trace, "crash")
+    runs = cc.run_profile(ctx, binp, "crash", 6 if q else 40, 0 if q else 0)
+    cc.report_all(ctx, PID, runs, "crash")
+    trace, res = runs[0]
     cc.mutate_and_reject(ctx, trace, "crash", None, "acknowledged byte missing from the durable copy")
     ctx.cov["rule"] = 'WRITE (stable UNSTABLE/DATA_SYNC/FILE_SYNC) and COMMIT histories on two files, each re-run with a crash injected at every backend operation k = 1..N of the history (the vfs backend then discards all unsynced file data) plus a crash after the last reply; 100+ server instances for the verifier clause; non-trivial = a run with an injected crash'
